@@ -23,7 +23,13 @@ fn main() {
     {
         let mut g = Game::new(&mut tr);
         let mut round = 0usize;
-        while g.tr.lines < target && !g.dead {
+        let mut panics = 0usize;
+        while g.tr.lines < target && panics < 40 {
+            if g.dead {
+                // a panic was logged: that game is over, the next round starts with a reset
+                g.dead = false;
+                panics += 1;
+            }
             round += 1;
             match driver {
                 "setup" => {
